@@ -385,6 +385,7 @@ def materialise(el, feed, call):
         truth_csv=el.truth.to_csv(index=False),
         feed_csv=feed.to_csv(index=False),
         feed_dtypes={c: str(t) for c, t in feed.dtypes.items()},
+        pre_file_csv=(el.pre_file.to_csv(index=False) if getattr(el, "pre_file", None) is not None else None),
         call=call,
         meta=el.meta,
     )
@@ -420,6 +421,8 @@ def dematerialise(m):
     truth = _read(m["truth_csv"], {})
     feed = _read(m["feed_csv"], m["feed_dtypes"])
     el = Election(pre, m["config"], m["office"], m["geo_type"], truth, m.get("meta", {}))
+    if m.get("pre_file_csv"):
+        el.pre_file = _read(m["pre_file_csv"], m["pre_dtypes"])
     if el.meta.get("cat_key"):
         make_categorical(el, el.meta["cat_key"])
     if el.meta.get("int_key"):
